@@ -691,6 +691,28 @@ func intBin(op string, a, b *Term) *Term {
 			}
 		}
 	}
+	if (op == "mod" || op == "div") && a.Op == "bv2nat" && b.IsConst() && b.C.Sign() > 0 {
+		k := b.C.BitLen() - 1
+		if new(big.Int).Lsh(bigOne, uint(k)).Cmp(b.C) == 0 { // power of two
+			x := a.Args[0]
+			if op == "mod" {
+				if k >= x.S.W {
+					return a
+				}
+				if k == 0 {
+					return IntI(0)
+				}
+				return BV2Nat(Extract(k-1, 0, x))
+			}
+			if k >= x.S.W {
+				return IntI(0)
+			}
+			if k == 0 {
+				return a
+			}
+			return BV2Nat(Extract(x.S.W-1, k, x))
+		}
+	}
 	switch op {
 	case "+":
 		if a.IsConst() && a.C.Sign() == 0 {
@@ -841,8 +863,16 @@ func Int2BV(w int, a *Term) *Term {
 	if a.IsConst() {
 		return BVC(w, a.C)
 	}
-	if a.Op == "bv2nat" && a.Args[0].S.W == w {
-		return a.Args[0]
+	if a.Op == "bv2nat" {
+		// stay in the bit-vector theory when the integer came from a bit-vector
+		x := a.Args[0]
+		if x.S.W == w {
+			return x
+		}
+		if x.S.W < w {
+			return ZExt(w, x)
+		}
+		return Extract(w-1, 0, x)
 	}
 	return &Term{Op: "int2bv", S: BVSort(w), Args: []*Term{a}, Hi: w}
 }
